@@ -129,6 +129,8 @@ pub struct RunOut {
     pub invalid_certs_sent: Vec<(usize, MCert)>,
     /// datagrams dropped because more than the bounded number were in flight (request storms)
     pub overflow_dropped: u64,
+    /// per node: blocks waiting for a parent certificate at the end of the run (hook), for diagnosis
+    pub waiting_at_end: BTreeMap<usize, Vec<(Bid, Bid)>>,
     pub routes: BTreeMap<(u64, u64, u64), crate::cluster::ShredRoute>,
 }
 
@@ -450,6 +452,11 @@ pub async fn execute(cfg: &RunCfg, rng: &mut SRng) -> RunOut {
         fin_logs.insert(v, cl.fin_log(v).await);
         held.insert(v, cl.held_certs(v).await);
     }
+    let mut waiting_at_end = BTreeMap::new();
+    for &v in &all_nodes {
+        let snap = cl.nodes[&v].pool.read().await.verif_snapshot(usize::MAX);
+        waiting_at_end.insert(v, snap.waiting_for_parent_cert.iter().map(|c| (crate::poolsim::from_bid(c), crate::poolsim::from_bid(c))).collect::<Vec<_>>());
+    }
     let dead_tasks: Vec<usize> = cl.nodes.iter().filter(|(v, nh)| !cl.crashed.contains(v) && nh.task.is_finished()).map(|(v, _)| *v).collect();
     let shred_bytes = { std::mem::take(&mut cl.log.lock().unwrap().shred_bytes) };
     let mut tree = observe_blocks(&cfg.ep, &shred_bytes).await;
@@ -489,6 +496,7 @@ pub async fn execute(cfg: &RunCfg, rng: &mut SRng) -> RunOut {
         laggard: lag_info,
         invalid_certs_sent: std::mem::take(&mut l.invalid_certs_sent),
         overflow_dropped: cl.net.overflow_dropped(),
+        waiting_at_end,
         routes: std::mem::take(&mut l.routes),
     }
 }
